@@ -190,20 +190,20 @@ pub fn extend_words(v: &mut Vec<u32>, s: &[u32])
 
         def inst_edit(p):
             p.sub(r"for operand in &self\.operands", "for operand in iter: &self.operands", "G1", count=1)
-            p.insert_at("result.push(self.class.opcode as u32);", " proof { op_word_is_cast(self.class.opcode); } ", where="after", nth=1, tag="ghost")
-            p.insert_at("let end = result.len() - start;", """
+            p.insert_after_stmt("result.push(self.class.opcode", " proof { op_word_is_cast(self.class.opcode); } ")
+            p.insert_after_stmt("let end =", """
         proof {
             assert(result@.len() == start + inst_len(*self));
             assert(end == inst_len(*self));
             assert(result@[start as int] == op_word(self.class.opcode));
         }
         let ghost pre = result@;
-""", where="after", nth=1, tag="ghost")
-            p.insert_at("result[start] |= (end as u32) << 16;", """
+""")
+            p.insert_after_stmt("result[start] |=", """
         proof {
             assert(result@ =~= pre.update(start as int, (op_word(self.class.opcode) | ((end as u32) << 16)) as u32));
         }
-""", where="after", nth=1, tag="ghost")
+""")
             p.add_loop_contract(1, """            invariant
                 start == old(result)@.len(),
                 result@ =~= old(result)@ + seq![op_word(self.class.opcode)] + opt_word(self.result_type) + opt_word(self.result_id)
